@@ -48,6 +48,11 @@ pub trait OrdColl: Sized {
     fn from_snap(_s: &Snap) -> Option<Self> {
         None
     }
+    /// (trees) length of the free list according to the snapshot hook - lets a driver steer towards
+    /// "the arena is exactly full"
+    fn free_slots(&self) -> Option<usize> {
+        None
+    }
 }
 
 fn snap_head(o: &mut String, root: u32) {
@@ -177,6 +182,9 @@ impl<P: Payload> OrdColl for MapTree<OKey, P> {
         let s = self.verif_snapshot();
         let nodes: Vec<CNode> = s.nodes.iter().map(|n| CNode { l: n.left, r: n.right, red: n.red, k: n.key.0, v: 0 }).collect();
         Some(keys_of(&nodes, s.root))
+    }
+    fn free_slots(&self) -> Option<usize> {
+        Some(self.verif_snapshot().unused.len())
     }
     fn from_snap(s: &Snap) -> Option<Self> {
         use i_tree::map::verif::{VerifNode, VerifSnapshot};
@@ -319,6 +327,9 @@ impl<P: Payload> OrdColl for SetTree<OKey, PV<P>> {
         let nodes: Vec<CNode> = s.nodes.iter().map(|n| CNode { l: n.left, r: n.right, red: n.red, k: n.value.key.0, v: 0 }).collect();
         Some(keys_of(&nodes, s.root))
     }
+    fn free_slots(&self) -> Option<usize> {
+        Some(self.verif_snapshot().unused.len())
+    }
     fn from_snap(s: &Snap) -> Option<Self> {
         use i_tree::set::verif::{VerifNode, VerifSnapshot};
         let nodes = s
@@ -404,6 +415,9 @@ impl OrdColl for SetTree<i32, i32> {
         let nodes: Vec<CNode> = s.nodes.iter().map(|n| CNode { l: n.left, r: n.right, red: n.red, k: n.value, v: 0 }).collect();
         Some(keys_of(&nodes, s.root))
     }
+    fn free_slots(&self) -> Option<usize> {
+        Some(self.verif_snapshot().unused.len())
+    }
     fn from_snap(s: &Snap) -> Option<Self> {
         use i_tree::set::verif::{VerifNode, VerifSnapshot};
         // bare integers: the value is the key
@@ -482,6 +496,19 @@ pub enum OOp {
     After { h: u32 },
     Before { h: u32 },
     Clear,
+    /// insert of every key lo, lo + step, .. <= hi (value k * 1000 + 7), observed as one call;
+    /// ord: 0 ascending, 1 descending, 2 a fixed pseudo-random order
+    Bulk { lo: i32, hi: i32, step: i32, ord: i32 },
+}
+
+pub fn bulk_keys(lo: i32, hi: i32, step: i32, ord: i32) -> Vec<i32> {
+    let mut ks: Vec<i32> = (lo..=hi).step_by(step.max(1) as usize).collect();
+    match ord {
+        1 => ks.reverse(),
+        2 => Rng::new(lo as u64 * 31 + hi as u64).shuffle(&mut ks),
+        _ => {}
+    }
+    ks
 }
 
 impl OOp {
@@ -502,6 +529,7 @@ impl OOp {
             "after" => OOp::After { h: h("h")? },
             "before" => OOp::Before { h: h("h")? },
             "clear" => OOp::Clear,
+            "bulk" => OOp::Bulk { lo: n("lo")?, hi: n("hi")?, step: n("step")?, ord: n("ord")? },
             _ => return None,
         })
     }
@@ -519,6 +547,7 @@ impl OOp {
             OOp::After { h } => format!("\"op\":\"after\",\"h\":{}", r32(*h)),
             OOp::Before { h } => format!("\"op\":\"before\",\"h\":{}", r32(*h)),
             OOp::Clear => "\"op\":\"clear\"".to_string(),
+            OOp::Bulk { lo, hi, step, ord } => format!("\"op\":\"bulk\",\"lo\":{lo},\"hi\":{hi},\"step\":{step},\"ord\":{ord}"),
         }
     }
 }
@@ -838,6 +867,19 @@ impl<'a, C: OrdColl> OrdSession<'a, C> {
                 self.mine.insert(*k);
                 o
             }
+            OOp::Bulk { lo, hi, step, ord } => {
+                let ks = bulk_keys(*lo, *hi, *step, *ord);
+                let (vm, va) = if C::PLAIN { (1, 0) } else { (1000, 7) };
+                let _ = write!(extra, ",\"vm\":{},\"va\":{}", vm, va);
+                let o = observe(arm, || {
+                    for k in &ks {
+                        c.insert(*k, *k * vm + va);
+                    }
+                    0i64
+                });
+                self.mine.extend(ks);
+                o
+            }
             OOp::Del { k } => {
                 let o = observe(arm, || {
                     c.delete(*k);
@@ -923,7 +965,7 @@ impl<'a, C: OrdColl> OrdSession<'a, C> {
         if let Outcome::Ok(r) = &o.out {
             res = *r;
             match op {
-                OOp::Ins { .. } | OOp::Del { .. } | OOp::Write { .. } | OOp::DelH { .. } | OOp::Clear => {}
+                OOp::Ins { .. } | OOp::Del { .. } | OOp::Write { .. } | OOp::DelH { .. } | OOp::Clear | OOp::Bulk { .. } => {}
                 _ => {
                     let _ = write!(extra, ",\"res\":{}", r);
                 }
@@ -969,6 +1011,88 @@ impl<'a, C: OrdColl> OrdSession<'a, C> {
                 }
             }
             self.walks();
+        }
+    }
+
+    /// look-ups for the extremes, for `n` random probes (stored keys and gaps alike) and for the
+    /// neighbours of every probed key; on a set also neighbour steps from the handles returned
+    pub fn sample_queries(&mut self, rng: &mut Rng, n: usize) {
+        if self.dead {
+            return;
+        }
+        self.apply(&OOp::Empty, 0);
+        let top = self.mine.iter().next_back().cloned().unwrap_or(0) + 2;
+        let mut probes: Vec<i32> = vec![0, 1, 2, top - 2, top - 1, top];
+        for _ in 0..n {
+            let p = rng.range(0, top as i64) as i32;
+            probes.extend([p - 1, p, p + 1]);
+        }
+        // every stored key must be found once when the collection is small enough
+        if self.mine.len() <= 160 {
+            probes.extend(self.mine.iter().cloned());
+        }
+        for p in probes {
+            if self.dead {
+                return;
+            }
+            let p = p.max(0);
+            self.apply(&OOp::Get { k: p }, 0);
+            let a = self.apply(&OOp::Fil { p }, 0);
+            if C::IS_SET && a.ok && a.res >= 0 {
+                self.apply(&OOp::After { h: a.res as u32 }, 0);
+                self.apply(&OOp::Before { h: a.res as u32 }, 0);
+            }
+            self.apply(&OOp::FilBy { th: 2 * p + 1 }, 0);
+        }
+    }
+
+    /// delete every key the harness believes present (and every key of a small universe), ask for
+    /// emptiness, insert one key again
+    pub fn drain_and_refill(&mut self) {
+        let mut ks: Vec<i32> = self.mine.iter().cloned().collect();
+        if self.keys <= 24 {
+            ks = (0..=self.keys + 1).collect();
+        }
+        for k in ks {
+            if self.dead {
+                return;
+            }
+            self.apply(&OOp::Del { k }, 0);
+        }
+        self.apply(&OOp::Empty, 0);
+        let v = self.next_value(1);
+        self.apply(&OOp::Ins { k: 1, v }, 0);
+        self.apply(&OOp::Empty, 0);
+        self.apply(&OOp::Get { k: 1 }, 0);
+    }
+
+    /// every callback index of one call: the j-th user callback panics, the state is logged, the
+    /// collection is looked at (`sample`); repeated until the call completes.  The caller keeps going
+    /// with the collection as the completed call leaves it.
+    pub fn enumerate_faults(&mut self, op: &OOp, rng: &mut Rng) {
+        let mut j = 1u64;
+        loop {
+            if self.dead {
+                return;
+            }
+            let a = self.apply(op, j);
+            if !a.unwound {
+                return;
+            }
+            // an unwound insert may or may not have stored its key: learn it from the snapshot (trees);
+            // for the lists the harness keeps its record and never re-inserts the key in this segment
+            if let OOp::Ins { k, .. } = op {
+                if C::HAS_SNAP {
+                    self.mine = self.c.stored_keys().unwrap_or_default().into_iter().collect();
+                } else {
+                    self.mine.remove(k);
+                }
+            }
+            self.sample_queries(rng, 4);
+            j += 1;
+            if j > 400 {
+                return;
+            }
         }
     }
 
@@ -1156,6 +1280,8 @@ pub fn run_faults<C: OrdColl>(tr: &mut Trace, paths: &[(usize, Vec<POp>)], keys:
                     s.apply(&OOp::Del { k: *k }, 0);
                 }
                 s.apply(&OOp::Get { k: 1 }, 0);
+                // ... and emptied completely: it must say so, and take entries again
+                s.drain_and_refill();
                 if !a.unwound {
                     break;
                 }
@@ -1214,6 +1340,139 @@ pub fn run_ind<C: OrdColl>(tr: &mut Trace, states: &[Snap], handles: bool) {
         s.load_snap(snap, cap);
         s.apply(&OOp::Clear, 0);
         s.apply(&OOp::Empty, 0);
+    }
+}
+
+/// Threshold sweep: structures far larger than the exhaustive universes, driven deterministically
+/// through the sizes at which arenas grow, buffers reallocate and fast paths switch.  `plan` is a list
+/// `n1:n2` - fill to n1 entries (trees with `full=1`: go on until the arena is exactly full), observe,
+/// clear, refill to n2 entries (past the old arena size), observe, delete every third key, observe.
+/// Stored keys are even, so every gap has a probe.  Order of insertion: ascending / descending /
+/// shuffled, rotating with the seed.
+pub fn run_scale<C: OrdColl>(tr: &mut Trace, plan: &[(i32, i32)], seed: u64, full: bool, cap: i64, snap_every: u64, deep: i32, faults: bool) {
+    let mut rng = Rng::new(seed);
+    let mut s: OrdSession<C> = OrdSession::new(tr, 1, 0, 0);
+    if deep > 0 {
+        // a tree more than 2 * log2(n) levels deep (monotone insertion), built by one bulk call: look-ups,
+        // neighbour steps and removals at the far end of the long spine, and at the near end
+        for ord in [0, 1] {
+            if ord == 1 && !C::HAS_SNAP {
+                break; // a sorted vector filled in descending order moves n^2 / 2 elements
+            }
+            let n = deep;
+            s.snap_every = 1 << 40;
+            s.obs_every = 0;
+            s.keys = 2 * n + 1;
+            s.reset(0);
+            s.apply(&OOp::Bulk { lo: 2, hi: 2 * n, step: 2, ord }, 0);
+            let (far, near, inward) = if ord == 0 { (2 * n, 2, -2) } else { (2, 2 * n, 2) };
+            for k in [far, far + inward, far + 2 * inward, near, n] {
+                s.apply(&OOp::Get { k }, 0);
+                s.apply(&OOp::Fil { p: k + 1 }, 0);
+                s.apply(&OOp::FilBy { th: 2 * k - 1 }, 0);
+            }
+            if C::IS_SET {
+                for start in [far, near] {
+                    if let Some(h0) = s.handle_of(start) {
+                        for dir in [0, 1] {
+                            let mut h = h0;
+                            for _ in 0..6 {
+                                let a = if dir == 0 { s.apply(&OOp::After { h }, 0) } else { s.apply(&OOp::Before { h }, 0) };
+                                if !a.ok || a.res < 0 {
+                                    break;
+                                }
+                                h = a.res as u32;
+                            }
+                        }
+                    }
+                }
+            }
+            s.apply(&OOp::Del { k: far }, 0);
+            s.apply(&OOp::Get { k: far }, 0);
+            s.apply(&OOp::Del { k: far + inward }, 0);
+            s.apply(&OOp::Get { k: far + inward }, 0);
+            if let Some(h) = s.handle_of(far + 2 * inward) {
+                s.apply(&OOp::DelH { h }, 0);
+                s.mine.remove(&(far + 2 * inward));
+            }
+            s.apply(&OOp::Get { k: far + 2 * inward }, 0);
+            s.apply(&OOp::Fil { p: far + 1 }, 0);
+            s.apply(&OOp::Ins { k: far + 1, v: (far + 1) * 1000 + 3 }, 0);
+            s.apply(&OOp::Get { k: far + 1 }, 0);
+            s.apply(&OOp::Empty, 0);
+        }
+    }
+    for (round, (n1, n2)) in plan.iter().enumerate() {
+        if s.tr.full() {
+            break;
+        }
+        let universe = 2 * (*n1).max(*n2) + 16;
+        s.keys = 2 * universe + 1;
+        s.snap_every = if (*n1).max(*n2) > 48 { snap_every.max(1) } else { 1 };
+        s.obs_every = 0;
+        s.reset(if cap >= 0 { cap as usize } else { [0usize, 1, 8][(seed as usize + round) % 3] });
+        let order = |rng: &mut Rng, n: i32, mode: u64| -> Vec<i32> {
+            let mut ks: Vec<i32> = (1..=n).map(|i| 2 * i).collect();
+            match mode % 3 {
+                1 => ks.reverse(),
+                2 => rng.shuffle(&mut ks),
+                _ => {}
+            }
+            ks
+        };
+        // phase 1: fill (fault runs: at the sizes at which buffers are exactly full or just past it, every
+        // callback index of the insertion is made to panic before the insertion is allowed to complete)
+        for k in order(&mut rng, *n1, seed + round as u64) {
+            let v = s.next_value(k);
+            let n = s.mine.len();
+            if faults && (n >= 8 && (n.is_power_of_two() || (n - 1).is_power_of_two() || n % 8 == 7)) {
+                s.enumerate_faults(&OOp::Ins { k, v }, &mut rng);
+                s.mine.insert(k);
+            } else {
+                s.apply(&OOp::Ins { k, v }, 0);
+            }
+        }
+        if full && C::HAS_SNAP {
+            let mut k = 2 * *n1;
+            while s.c.free_slots().map_or(false, |f| f > 0) && k < 2 * universe - 2 && !s.dead {
+                k += 2;
+                let v = s.next_value(k);
+                s.apply(&OOp::Ins { k, v }, 0);
+            }
+        }
+        s.sample_queries(&mut rng, 24);
+        // phase 2: clear and refill past the old size
+        if *n2 > 0 && !s.dead {
+            s.apply(&OOp::Clear, 0);
+            s.apply(&OOp::Empty, 0);
+            for k in order(&mut rng, *n2, seed + round as u64 + 1) {
+                if s.dead {
+                    break;
+                }
+                let v = s.next_value(k);
+                s.apply(&OOp::Ins { k, v }, 0);
+            }
+            s.sample_queries(&mut rng, 24);
+        }
+        // phase 3: delete every third key (by key / through a handle), then look again
+        let stored: Vec<i32> = s.mine.iter().cloned().collect();
+        for (i, k) in stored.iter().enumerate() {
+            if s.dead {
+                break;
+            }
+            if i % 3 == 1 {
+                if i % 2 == 0 {
+                    s.apply(&OOp::Del { k: *k }, 0);
+                } else if let Some(h) = s.handle_of(*k) {
+                    s.apply(&OOp::DelH { h }, 0);
+                    s.mine.remove(k);
+                }
+            }
+        }
+        s.sample_queries(&mut rng, 24);
+        if C::IS_SET && !s.dead {
+            s.walks();
+        }
     }
 }
 
